@@ -304,6 +304,7 @@ def main(argv):
         log('lean: %d theorems, %d broken obligations, %.1fs' % (len(info['theorems']), len(info['broken']), info['build_s']))
         for b in info['broken']:
             log('BROKEN: ' + b)
+        ctx.deadline = time.time() + budget      # the exploration budget starts when the build and the audit are done
         rep = mod.run(ctx)
     except subprocess.TimeoutExpired as e:
         print('timeout: %s' % e)
